@@ -1,6 +1,7 @@
 """C13 — the seen-set answers membership correctly after any insertion history."""
 import itertools
 import pvlib
+from pvlib import hx
 
 LEVEL = "proof"
 RULE = ("real util::AutoProbing<Entry,IdentityHash> in-process vs the Lean model, op by op (answers, stored values, bucket count "
@@ -93,6 +94,25 @@ def run(ctx):
             break
     if ctx.violations:
         return          # the small domain already shows the failure; the large histories would only add waiting time
+    # bin/vocab = the seen-set over words: every distinct word once, in order of first appearance, NUL-terminated
+    wpool = [b"a", b"b", b"the", b"caf\xc3\xa9", b"x" * 300, b"\xff", b"0", b"word"]
+    for _ in range(40 if ctx.tier == "quick" else 400):
+        ws = [rng.choice(wpool) if rng.random() < 0.7 else b"w%d" % rng.randrange(200) for _ in range(rng.randrange(0, 60))]
+        data = b"".join(w + rng.choice([b" ", b"\n", b"\t", b"\r\n", b"  ", b"\0", b" \n "]) for w in ws)
+        if ws and rng.random() < 0.3:
+            data = data.rstrip(b" \n\t\r\0")
+        st, out, err = pvlib.run_tool([ctx.bin("vocab")], data, env=pvlib.san_env(), timeout=30)
+        ctx.count("vocab", 1, [data])
+        want = b"".join(w + b"\0" for w in dict.fromkeys(ws))
+        m = pvlib.run_lines(pvlib.PVDRIVER, ["tools.vocab " + hx(data)])[0]
+        if st != 0 or out != want:
+            pvlib.report_violation(ctx, "vocab:" + hx(data)[:60], {"argv": ["vocab"], "stdin_hex": hx(data), "status": st, "got": hx(out)[:400], "want": hx(want)[:400]},
+                                   summary=f"vocab on {data[:60]!r}: printed {out[:60]!r}, the distinct words in order of first appearance are {want[:60]!r} (status {st})")
+            break
+        if m != "ok " + hx(out):
+            pvlib.report_violation(ctx, "corr:tools.vocab", {"ops": ["tools.vocab " + hx(data)], "impl": hx(out), "model": m,
+                                   "correspondence": "PV.Tools2.vocab vs bin/vocab"}, no_input=True, summary="vocab model/impl differ")
+            break
     # bulk growth through every allocation regime (malloc -> 2 MiB -> mmap -> mremap ...), audited in the harness against
     # the finite map after every doubling, for the 8-byte (dedupe's seen-set) and the 16-byte (key + value) entry
     for entry, n in ((8, 2_000_000), (16, 1_200_000)) if ctx.tier == "quick" else ((8, 20_000_000), (16, 12_000_000)):
